@@ -137,8 +137,11 @@ func Apply(repo string, rules []Rule) (map[string][]byte, []string, error) {
 			cands[strings.SplitN(k, ".", 2)[0]] = true
 		}
 		dropUnused(f, cands, len(r.ReplaceBody) > 0)
-		// comments are dropped to avoid misplacement after body replacement
-		f.Comments = keepBuildTags(f)
+		// comments are dropped to avoid misplacement after body replacement (directives such as
+		// go:linkname must survive, so files without a body replacement keep all comments)
+		if len(r.ReplaceBody) > 0 {
+			f.Comments = keepBuildTags(f)
+		}
 		var buf bytes.Buffer
 		if err := format.Node(&buf, fset, f); err != nil {
 			return nil, nil, err
